@@ -792,6 +792,16 @@ func c09Graphs(c *Ctx) error {
 				}
 			}
 		}
+		if i < 80 {
+			for _, tgt := range targets {
+				c.Hist("door:D3:pass-orders:" + tgt.String())
+				if name, what, x := c09SweepPassOrders(rc, xs, want, tgt); name != "" {
+					c.Fail("c09:graph:pass-order:"+name+":"+tgt.String(),
+						"the gate graph compiled after another legal sequence of the passes computes something else: "+what,
+						c09GraphReplay{Seed: c.Seed, Case: i, Target: tgt.String(), Recipe: rc, X: x})
+				}
+			}
+		}
 		for _, f := range deferred {
 			f()
 		}
@@ -2043,6 +2053,7 @@ func runC09(c *Ctx) error {
 	}
 	c09LitDivs(c)
 	c09Builtins(c)
+	c09Sweep(c)
 	t3 := time.Now()
 	err := c09Progs(c)
 	c.Note("graphs %.1fs, deep chains %.1fs, divisions %.1fs, programs %.1fs", t1.Sub(t0).Seconds(), t2.Sub(t1).Seconds(), t3.Sub(t2).Seconds(), time.Since(t3).Seconds())
